@@ -107,6 +107,23 @@ def sc_cor_vs_cov(cx, cost, relative):
     _compare_fits(cx, "cor-vs-cov/rel-%s" % relative, fa, fb)
 
 
+def sc_cor_scalar_err(cx, cost, other):
+    """correlation matrix + ONE scalar uncertainty == the covariance matrix / == the constant vector of uncertainties"""
+    fa, (x, y) = _xy(cx, cost)
+    fb, _ = _xy(cx, cost, data=(x, y))
+    e = cx.real("e")
+    cx.assume(e >= 0)
+    c = cx.real("c")
+    cx.assume(c >= -1)
+    cx.assume(c <= 1)
+    fa.add_matrix_error("y", [[1.0, c], [c, 1.0]], "cor", name="m", err_val=e)
+    if other == "cov":
+        fb.add_matrix_error("y", [[e * e, c * e * e], [c * e * e, e * e]], "cov", name="m")
+    else:
+        fb.add_matrix_error("y", [[1.0, c], [c, 1.0]], "cor", name="m", err_val=[e, e])
+    _compare_fits(cx, "cor-scalar-err-vs-%s" % other, fa, fb)
+
+
 def sc_simple_vs_matrix(cx, cost):
     fa, (x, y) = _xy(cx, cost)
     fb, _ = _xy(cx, cost, data=(x, y))
@@ -250,6 +267,14 @@ def sc_model_forms(cx, form, cost):
         fb = XYFit([list(x), list(y)], "f: x a b -> a * x + b", cost_function=cost, minimizer="scipy")
     elif form == "sympy-string-defaults":
         fb = XYFit([list(x), list(y)], "f: x a=2.5 b -> a * x + b", cost_function=cost, minimizer="scipy")
+    elif form == "sympy-string-zero-default":
+        def lin0(x, a=1.5, b=0.0):
+            return a * x + b
+
+        fa = XYFit([list(x), list(y)], lin0, cost_function=cost, minimizer="scipy")
+        fb = XYFit([list(x), list(y)], "f: x a=1.5 b=0 -> a * x + b", cost_function=cost, minimizer="scipy")
+        cx.eq("model-forms/%s:default-values" % form, fb.parameter_values, fa.parameter_values)
+        cx.eq("model-forms/%s:y_model-at-defaults" % form, fb.y_model, fa.y_model)
     else:
         from kafe2.fit.representation.model.yaml_drepr import ModelFunctionYamlReader
 
@@ -288,6 +313,8 @@ def scenarios(tier, seed):
         for rel in (False, True):
             S.append(Scenario("cor-vs-cov/%s/rel-%s" % (cost, rel), sc_cor_vs_cov, family="cor-vs-cov", params=dict(cost=cost, relative=rel)))
         S.append(Scenario("simple-vs-matrix/%s" % cost, sc_simple_vs_matrix, family="simple-vs-matrix", params=dict(cost=cost)))
+        for other in ("cov", "vector"):
+            S.append(Scenario("cor-scalar-err-vs-%s/%s" % (other, cost), sc_cor_scalar_err, family="cor-scalar-err", params=dict(cost=cost, other=other)))
         for axis in ("y", "x"):
             for rel in (False, True):
                 S.append(Scenario("scalar-vs-vector/%s/%s/rel-%s" % (cost, axis, rel), sc_scalar_vs_vector, family="scalar-vs-vector", params=dict(cost=cost, axis=axis, relative=rel)))
@@ -300,7 +327,7 @@ def scenarios(tier, seed):
         S.append(Scenario("constraint-forms/%s" % form, sc_constraint_forms, family="constraint-forms", params=dict(form=form)))
     for form in ("simple", "matrix"):
         S.append(Scenario("constraint-in-fit/%s" % form, sc_constraint_in_fit, family="constraint-in-fit", params=dict(form=form)))
-    for form in ("library-name", "library-alias", "sympy-string", "sympy-string-defaults", "source-text"):
+    for form in ("library-name", "library-alias", "sympy-string", "sympy-string-defaults", "sympy-string-zero-default", "source-text"):
         S.append(Scenario("model-forms/%s" % form, sc_model_forms, family="model-forms", params=dict(form=form, cost="chi2_fast")))
     S.append(Scenario("twin/rel-is-not-abs", sc_twin, twin=True))
     return S
